@@ -557,6 +557,12 @@ func dialOnce(sc scenario, plan cancelPlan, o *outcome) {
 		} else {
 			o.Conn, o.BR, _, o.Err = d.Dial(ctx, url)
 		}
+		if o.BR != nil {
+			// "received non-nil bufio.Reader should be returned ... with
+			// PutReader()": the caller does, whatever the error says (the sim
+			// pool notices a reader that is put twice).
+			ws.PutReader(o.BR)
+		}
 		o.Returned = time.Since(start)
 		o.CtxErrAtIO = ctx.Err()
 		if o.CtxEndedAt < 0 && ctx.Err() != nil {
